@@ -98,9 +98,10 @@ PROPS = {
         "explanation": "reclamation side of the same free-list contracts",
     },
     "C09": {
-        "units": ["vm", "anl", "cgen", "pgm"],
+        "units": ["vm", "anl", "cgen", "pgm", "apl"],
         "trusted_base": COMMON_TB + [
-"units/pgm/prelude.rs: Instruction with its three real fields, InternedString as a number + ghost flag `text starts with #%prim.`, the interned symbol statics as pairwise distinct numbers; real steel-gen OpCode, u24 extracted",
+"units/apl/prelude_extra.rs (+ units/vm/prelude.rs with five function-valued SteelVal variants): new_handle_tail_call_closure / handle_function_call_closure as callee contracts (their own contracts are unit vm) that record closure, argument count, ip and operand stack; List::cons / iter as an exact sequence model",
+            "units/pgm/prelude.rs: Instruction with its three real fields, InternedString as a number + ghost flag `text starts with #%prim.`, the interned symbol statics as pairwise distinct numbers; real steel-gen OpCode, u24 extracted",
             "units/cgen/prelude.rs: reduced AST, Analysis maps as association lists, std Vec inside code_gen.rs as a typed 16-slot array (assumed contract of Vec), `CodeGenerator::visit` as ghost callee appending a concrete number of marker instructions, specialize_* helpers return None (jit2 build; checked textually), println! no-op; u24 / LabeledInstruction / CallKind / SemanticInformation / ... extracted verbatim, real steel-gen OpCode",
             "units/anl/prelude.rs: reduced AST (real field names; accessors extracted verbatim from steel-parser), AnalysisPass with the real traversal fields (list checked against the real struct every run) + ghost event log, quickscope::ScopeMap / FxHashMap / SmallVec / ThinVec as exact finite models; `self.visit` is the CALLEE CONTRACT of the recursive visitor (records the state it is called in; returns with tail flag, escape flag, stack offset and context depth unchanged, defining context unchanged or cleared); visit_define_without_body abstracted",
             "units/vm/prelude.rs: VmCore/SteelThread with only the touched fields (field lists checked against the real structs every run), frame stack with a ghost count of older frames, reduced SteelVal/ByteCodeLambda, RootedInstructions as a raw slice pointer, message-less stop!",
@@ -114,9 +115,10 @@ PROPS = {
         "explanation": "frame-reuse contract of the interpreter's tail-call handlers and the depth-limit check",
     },
     "C01": {
-        "units": ["vm", "anl", "cev", "cgen", "cset", "num", "unw", "pgm"],
+        "units": ["vm", "anl", "cev", "cgen", "cset", "num", "unw", "pgm", "apl"],
         "trusted_base": COMMON_TB + [
-"units/pgm/prelude.rs: Instruction with its three real fields, InternedString as a number + ghost flag `text starts with #%prim.`, the interned symbol statics as pairwise distinct numbers; real steel-gen OpCode, u24 extracted",
+"units/apl/prelude_extra.rs (+ units/vm/prelude.rs with five function-valued SteelVal variants): new_handle_tail_call_closure / handle_function_call_closure as callee contracts (their own contracts are unit vm) that record closure, argument count, ip and operand stack; List::cons / iter as an exact sequence model",
+            "units/pgm/prelude.rs: Instruction with its three real fields, InternedString as a number + ghost flag `text starts with #%prim.`, the interned symbol statics as pairwise distinct numbers; real steel-gen OpCode, u24 extracted",
             "units/cgen/prelude.rs: reduced AST, Analysis maps as association lists, std Vec inside code_gen.rs as a typed 16-slot array (assumed contract of Vec), `CodeGenerator::visit` as ghost callee appending a concrete number of marker instructions, specialize_* helpers return None (jit2 build; checked textually), println! no-op; u24 / LabeledInstruction / CallKind / SemanticInformation / ... extracted verbatim, real steel-gen OpCode",
 "units/cset/prelude.rs: reduced AST (a sub-expression is a leaf or an identifier; node structs with the real field names), quickscope::ScopeSet / FxHashSet / SmallVec as exact finite models, `CollectSet::visit` as the callee contract of the recursive visitor (records sub-expression and scope state, leaves the scope stack unchanged)",
             "units/cev/prelude.rs: reduced AST, ConstantEnv as a ghost (one symbolic binding, lookups/unbinds counted), FxHashSet as a 2-slot set model, `ConstantEvaluator::visit` as ghost callee returning its argument; TokenType / Paren / ParenMod / InternedNumber / OptLevel / SteelVal::is_truthy / If::new / the ConstantEvaluator struct are extracted verbatim",
